@@ -15,9 +15,8 @@ Definition pmatch (m : matcher) (l f : nat) : option nat :=
   | Some p => Some (snd p)
   | None => None
   end.
-(* what _filter sees / what the documentation means *)
-Definition matches : matcher -> nat -> nat -> bool := code_matches _ _ _ pmatch.
-Definition matches_doc : matcher -> nat -> nat -> bool := doc_matches _ _ _ pmatch.
+(* `match(...) is not None` *)
+Definition matches : matcher -> nat -> nat -> bool := doc_matches _ _ _ pmatch.
 
 Definition retable := list (str * option rx).
 Fixpoint lookup_re (t : retable) (p : str) : option rx :=
@@ -139,7 +138,7 @@ Definition dispatch (f : Z) (x : sx) : sx :=
       | _, _ => sx_err
       end
   | 1 => (* [retable; rawconfig; queries [loc; file; ent]] ->
-            Ok [[cache-free; spec; excludes_error_only; dicts_nonempty] per query; no_exclude_rules] *)
+            Ok [[cache-free; spec; excludes_error_only] per query; no_exclude_rules] *)
       let cre := lookup_re (to_retable (nth_sx 0 x)) in
       match to_rawcfg (nth_sx 1 x) with
       | Some raw =>
@@ -149,9 +148,8 @@ Definition dispatch (f : Z) (x : sx) : sx :=
                  let fl := to_nat (nth_sx 1 q) in
                  let ent := to_ent (nth_sx 2 q) in
                  L [of_action (filter_pure _ _ _ Nat.eqb matches c loc fl ent);
-                    of_action (spec _ _ _ Nat.eqb matches_doc cre raw loc fl ent);
-                    of_bool (excludes_error_only _ _ _ Nat.eqb matches_doc cre raw loc fl);
-                    of_bool (dicts_nonempty _ _ _ pmatch raw loc fl)])
+                    of_action (spec _ _ _ Nat.eqb matches cre raw loc fl ent);
+                    of_bool (excludes_error_only _ _ _ Nat.eqb matches cre raw loc fl)])
                  (to_list (fun q => q) (nth_sx 2 x));
                of_bool (no_exclude_rules _ _ raw)])
             (build _ _ cre raw)
